@@ -20,7 +20,8 @@ import pyarrow as pa
 from pyarrow import ipc
 
 from harness.common import rpcutil
-from vgi_rpc.rpc import RpcServer, make_pipe_pair, make_unix_pair
+from harness.common.svcgen import ScriptState
+from vgi_rpc.rpc import RpcServer, ShmPipeTransport, Stream, make_pipe_pair, make_unix_pair
 
 
 class ProbeProtocol(Protocol):
@@ -28,6 +29,7 @@ class ProbeProtocol(Protocol):
     def ping(self) -> int: ...
     def echo(self, s: str) -> str: ...
     def boom(self, a: int) -> int: ...
+    def badstream(self, a: int) -> Stream[ScriptState]: ...
 
 
 class ProbeProtocolV(Protocol):
@@ -37,6 +39,7 @@ class ProbeProtocolV(Protocol):
     def ping(self) -> int: ...
     def echo(self, s: str) -> str: ...
     def boom(self, a: int) -> int: ...
+    def badstream(self, a: int) -> Stream[ScriptState]: ...
 
 
 class ProbeImpl:
@@ -51,6 +54,10 @@ class ProbeImpl:
 
     def boom(self, a: int) -> int:
         raise ValueError("boom")
+
+    def badstream(self, a: int) -> Stream[ScriptState]:
+        """A header-less stream whose init always fails: the server answers and then drains the client's input stream."""
+        raise ValueError("init refused")
 
 
 ADD_SCHEMA = pa.schema([pa.field("a", pa.int64(), nullable=False), pa.field("b", pa.int64(), nullable=False)])
@@ -86,8 +93,11 @@ def probe_server(version: str | None) -> RpcServer:
 
 
 class Probe:
-    def __init__(self, kind: str = "pipe", version: str | None = None) -> None:
-        ct, st = (make_pipe_pair if kind == "pipe" else make_unix_pair)()
+    def __init__(self, kind: str = "pipe", version: str | None = None, shm: Any = None) -> None:
+        """kind: pipe | unix | shm (pipe pair whose server side is a ShmPipeTransport over the segment `shm`)."""
+        ct, st = (make_unix_pair if kind == "unix" else make_pipe_pair)()
+        if kind == "shm":
+            st = ShmPipeTransport(st, shm)
         self.ct, self.st = ct, st
         self.kind = kind
         self.version = version
@@ -108,7 +118,7 @@ class Probe:
                 self.st.close()
 
     def _half_close(self) -> None:
-        if self.kind == "pipe":
+        if self.kind in ("pipe", "shm"):
             self.ct.writer.close()
         else:
             import socket
